@@ -409,14 +409,14 @@ def run_steps(ctx, binp, ml, profile, seed, only=None, timeout=900):
                         flagged.add(("early", okey))
                         keep(res["failures"], {
                             "case": context(), "observed": o, "specification": "%s:%d:0 [] - (not due: requeued unchanged, not executed)" % (okey, prio),
-                            "early_execution": True, "fire_time": prio, "clock_after_the_fetch": after, "early_by_ns": prio - after,
+                            "early_execution": True, "step_facts": extra, "fire_time": prio, "clock_after_the_fetch": after, "early_by_ns": prio - after,
                             "why": ["fetchAndReschedule returned job %s as valid (to be executed) for fire time %d, but the clock read AFTER the "
                                     "fetch had returned was %d: the job is run at least %d ns before its fire time" % (okey, prio, after, prio - after)]})
                     if prio not in produced.get(okey, ()) and ("invented", okey) not in flagged:
                         flagged.add(("invented", okey))
                         keep(res["failures"], {
                             "case": context(), "observed": o, "specification": "a valid dequeue carries a fire time returned by the job's own trigger",
-                            "invented_fire_time": True, "fire_time": prio,
+                            "invented_fire_time": True, "step_facts": extra, "fire_time": prio,
                             "fire_times_produced_for_the_job": sorted(produced.get(okey, ()))[-8:],
                             "why": ["fetchAndReschedule returned job %s as valid (to be executed) for the instant %d, which none of the NextFireTime "
                                     "calls made for this job returned (and no foreign writer queued): an execution without a fire time" % (okey, prio)]})
